@@ -95,6 +95,9 @@ func (f *Frame) exec(in ssa.Instruction) {
 	case *ssa.Store:
 		v := f.val(x.Val)
 		if lv, ok := f.lvals[x.Addr]; ok {
+			if g, isG := f.guardFor(lv); isG {
+				f.guardAccess(g, true, "field", x.Pos())
+			}
 			f.writeLV(st, lv, v)
 			return
 		}
@@ -177,6 +180,9 @@ func (f *Frame) exec(in ssa.Instruction) {
 		f.set(st, kl, vc.define(kl, e.keySort[kl], S("store", f.get(st, kl), r, "0")))
 		f.vals[x] = r
 	case *ssa.MapUpdate:
+		if g, isG := vc.guardVals[x.Map]; isG {
+			f.guardAccess(g, true, "map update", x.Pos())
+		}
 		mt := x.Map.Type().Underlying().(*types.Map)
 		kv, kd, kl := vc.mapKeys(mt)
 		m := f.val(x.Map)
@@ -236,6 +242,13 @@ func (f *Frame) unop(x *ssa.UnOp) {
 	switch x.Op {
 	case token.MUL: // load
 		if lv, ok := f.lvals[x.X]; ok {
+			if g, isG := f.guardFor(lv); isG {
+				f.guardAccess(g, false, "field", x.Pos())
+				if vc.guardVals == nil {
+					vc.guardVals = map[ssa.Value]guardInfo{}
+				}
+				vc.guardVals[x] = g
+			}
 			t := f.setVal(x, e.sortOf(x.Type()), f.readLV(f.cur, lv))
 			if !strings.HasPrefix(lv.key, "L:") {
 				f.assumeTypeInv(t, x.Type())
@@ -603,6 +616,9 @@ func (f *Frame) typeAssert(x *ssa.TypeAssert) {
 func (f *Frame) lookup(x *ssa.Lookup) {
 	vc := f.vc
 	e := vc.eng
+	if g, isG := vc.guardVals[x.X]; isG {
+		f.guardAccess(g, false, "map lookup", x.Pos())
+	}
 	switch xt := x.X.Type().Underlying().(type) {
 	case *types.Map:
 		kv, kd, _ := vc.mapKeys(xt)
@@ -701,6 +717,9 @@ func (f *Frame) rangeInit(x *ssa.Range) {
 	if !ok {
 		f.unknownValue(x, "range over "+x.X.Type().String())
 		return
+	}
+	if g, isG := vc.guardVals[x.X]; isG {
+		f.guardAccess(g, false, "map range", x.Pos())
 	}
 	ks := vc.eng.sortOf(mt.Key())
 	key := "it:" + f.fnTag() + f.id + x.Name()
